@@ -197,6 +197,25 @@ class Run(object):
             self.log("procRet defer")
             self.procd = defer.Deferred(lambda d: self.log("procCancel"))
             return self.procd
+        if res == "fired":
+            # a Deferred that has already fired with its result: for the consumer the same as a plain return value
+            self.log("procRet ok")
+            return defer.succeed(None)
+        if res == "paused":
+            # a Deferred that has ALREADY FIRED but whose callback chain is paused on a still-pending inner Deferred
+            # (`succeed(msgs).addCallback(slow_write)`): `.called` is true, the result is not there yet - for the consumer
+            # (and the model: `defer`) a pending result; `procDone` fires the inner Deferred, cancelling the outer one
+            # cancels the inner one
+            self.log("procRet defer")
+            self.procd = inner = defer.Deferred(lambda d: self.log("procCancel"))
+            d = defer.succeed(None)
+            d.addCallback(lambda _: inner)
+            return d
+        if res.startswith("failed:"):
+            # a Deferred that has already failed: the same as raising
+            _, kind, tag = res.split(":")
+            self.log("procRet err:%s:%s" % (kind, tag))
+            return defer.fail(Tagged.make(kind, tag))
         if res == "survive":
             # (beyond the model) a Deferred that outlives its cancellation: its own errback turns the CancelledError
             # into a clean-up Deferred that fires later (event `cleanupDone`)
